@@ -21,7 +21,7 @@ AIGER = ['aiger:aag', 'aiger:aig']
 # property -> bounded native stand-in suites (standin/src/*.rs); bounded, never counted as proved
 STANDIN_FOR = {
     'C01': FMT_SUITES, 'C02': ['reader'], 'C03': [s for s in FMT_SUITES if 'satlog' not in s and 'stream' not in s] + AIGER + DIMACS, 'C04': FMT_SUITES, 'C05': FMT_SUITES,
-    'C06': DIMACS + AIGER, 'C07': DIMACS + ['dimacs:satlog'], 'C08': FMT_SUITES + DIMACS + AIGER, 'C09': STREAMING + ['reader'], 'C10': ['reader', 'mem'], 'C11': ['writer'],
+    'C06': DIMACS + AIGER + ['dimacs:satlog'], 'C07': DIMACS + ['dimacs:satlog'], 'C08': FMT_SUITES + DIMACS + AIGER, 'C09': STREAMING + ['reader'], 'C10': ['reader', 'mem'], 'C11': ['writer'],
     'C12': ['renumber'], 'C13': ['scan'], 'C14': ['reader', 'raw', 'fmt:btor2', 'fmt:cnf', 'fmt:gcnf', 'fmt:aag', 'fmt:aig'], 'C16': ['scan'],
 }
 SUITE_FN = {
@@ -137,6 +137,19 @@ def run_suite(suite, prop, tier, seed):
             'counterexample': {'valgrind': first}, 'scenario': {'kind': 'standin', 'suite': 'raw', 'prop': prop, 'replay': [], 'check': 'valgrind memcheck'},
         })
         return er
+    if p.returncode in (-4, -6, -7, -8, -11):
+        # the real code brought the process down (abort from a debug precondition check of std, segmentation fault, illegal instruction ...):
+        # no safe call may do that; the diagnostic is all there is, the replay is the suite itself
+        import signal as _sig
+        why = 'the stand-in process was terminated by %s while running suite %s; last output: %s' % (_sig.Signals(-p.returncode).name, suite, ((p.stderr or '') + (p.stdout or ''))[-700:])
+        er.update(status='failed', failures_n=1, wall_s=round(time.time() - t0, 2), bound='see suite ' + suite, cases=0)
+        er['failures'].append({
+            'engine': 'standin', 'kind': 'bounded_standin', 'fn': fn, 'clause': '%s::%s_the_process_is_not_brought_down' % (name, prop), 'tags': [prop],
+            'message': 'bounded stand-in %s: %s' % (suite, why), 'rendered': why, 'clause_text': '%s the real code does not bring the process down (abort, segmentation fault)' % prop,
+            'site': ((path, 0), 0), 'counterexample': {'signal': -p.returncode, 'output': why[-900:]},
+            'scenario': {'kind': 'standin', 'suite': suite, 'prop': prop, 'replay': ['--suite--', tier, str(seed)], 'check': 'process terminated by signal'},
+        })
+        return er
     try:
         d = json.loads(p.stdout.strip().splitlines()[-1])
     except Exception:
@@ -176,6 +189,11 @@ def replay_standin(sc):
     if exe is None:
         print('NOT-REPRODUCED (stand-in does not build: %s)' % msg[-300:])
         return 0
+    if sc.get('replay') and sc['replay'][0] == '--suite--':
+        p = subprocess.run([exe, sc['suite'], sc.get('prop') or 'all', sc['replay'][1], sc['replay'][2]], capture_output=True, text=True, timeout=1800)
+        print(((p.stderr or '') + (p.stdout or ''))[-1500:])
+        print('REPRODUCED: the suite brings the process down again (exit %s)' % p.returncode if p.returncode < 0 else 'NOT-REPRODUCED')
+        return 1 if p.returncode < 0 else 0
     args = [exe, '--replay', sc['suite'], sc.get('prop') or 'all'] + list(sc['replay'])
     if sc['suite'] == 'raw':
         p = subprocess.run(['valgrind', '-q', '--error-exitcode=9', exe, 'raw', sc.get('prop') or 'C14', 'quick', '1'], capture_output=True, text=True, timeout=900)
